@@ -287,7 +287,7 @@ func zzC05XGridList() []*big.Int {
 var zzC05XGridV = zzC05XGridList()
 
 // zzC05XGridN is the size of the grid (the obligations JSON repeats it).
-const zzC05XGridN = 35
+const zzC05XGridN = 32
 
 func zzC05XInt(v *big.Int) slip.Object {
 	if v.IsInt64() {
